@@ -974,7 +974,7 @@ def _prod(*dims):
     return out
 
 
-QVALS_QUICK = (0, 4, 5, 8, 12)
+QVALS_QUICK = (0, 5, 8, 12)
 QVALS = (0, 4, 5, 8, 9, 12)     # quick tier, longest field bodies: int, raising __str__, raising __repr__,
 #                                  raising callable, callable returning a hostile object, attribute holder
 
@@ -1045,7 +1045,7 @@ VECTORS = {
 
 BOUNDS_TEXT = ("format strings over the 14 characters { } ! : . [ ] ( ) a b 0 r s: every whole format string of length "
                "<= n (fmt_event), every single replacement field '<{' + body + '}>' with len(body) <= m "
-               "(field_event; the longest bodies with 5 (quick) / 6 (thorough) of the 14 values) and '{' + body + '}.' "
+               "(field_event; the longest bodies with 4 (quick) / 6 (thorough) of the 14 values) and '{' + body + '}.' "
                "with len(body) <= f after the real flattenEvent (flat_event); event keys a and b take any of 14 "
                "menu values (int, str, None, bytes, objects whose __str__ / __repr__ / __format__ raise or return "
                "non-text, raising and hostile-returning callables, dict, list, attribute holder with a raising "
